@@ -331,9 +331,19 @@ func (w *ResponseWriter) WriteMsg(m *dns.Msg) error {
 		switch {
 		case opt == w.opt:
 			// This is our OPT, options already added by setCookie/setNSID
-		case w.opt != nil:
-			// This is response OPT, need to merge our options
-			opt.Option = append(opt.Option, w.opt.Option...)
+		default:
+			// This is the response's own OPT: the upstream's, handed
+			// through by the resolver or the forwarder, or one a lower
+			// layer composed. EDNS options are hop-by-hop: whatever the
+			// upstream volunteered on our connection to it (its cookie,
+			// NSID, padding, an option we do not know) was never
+			// negotiated by this client. Only an Extended DNS Error,
+			// which describes the answer and not the hop, travels on.
+			opt.Option = keepEDE(opt.Option)
+			if w.opt != nil {
+				// merge our options
+				opt.Option = append(opt.Option, w.opt.Option...)
+			}
 		}
 
 		// Strip every EDNS0_SUBNET from the client-facing response.
@@ -464,6 +474,17 @@ func stripECS(opts []dns.EDNS0) []dns.EDNS0 {
 			continue
 		}
 		keep = append(keep, o)
+	}
+	return keep
+}
+
+// keepEDE returns opts with everything but EDNS0_EDE entries removed.
+func keepEDE(opts []dns.EDNS0) []dns.EDNS0 {
+	keep := opts[:0]
+	for _, o := range opts {
+		if _, isEDE := o.(*dns.EDNS0_EDE); isEDE {
+			keep = append(keep, o)
+		}
 	}
 	return keep
 }
